@@ -285,7 +285,10 @@ def scenario(kinds, order, dup=True):
         before = set(p._pendingCalls)
         out = []
         p.callRemote('/o', 'M%d' % i, interface='org.e.I', destination='org.e', timeout=dl[i]).addBoth(out.append)
-        (s,) = set(p._pendingCalls) - before
+        fresh = set(p._pendingCalls) - before
+        if len(fresh) != 1:
+            return 'call %d was not registered under a serial of its own: pending serials %r before, %r after' % (i, sorted(before), sorted(p._pendingCalls))
+        (s,) = fresh
         outs.append(out)
         serials.append(s)
     done = set()
